@@ -8,6 +8,7 @@ mod util;
 mod ops_dos;
 mod ops_path;
 mod ops_text;
+mod ops_reader;
 mod mkzip;
 
 pub use util::*;
@@ -20,6 +21,9 @@ fn dispatch(op: &str, args: &[Arg]) -> String {
         return r;
     }
     if let Some(r) = ops_text::dispatch(op, args) {
+        return r;
+    }
+    if let Some(r) = ops_reader::dispatch(op, args) {
         return r;
     }
     "BADOP".to_string()
